@@ -108,22 +108,25 @@ Definition dec_calls (cs : sexp) : option (list (nat * list nat)) :=
   as_list_of (fun c => match c with SList [n; K] => do n' <- as_nat n; do K' <- as_list_of as_nat K; Some (n', K') | _ => None end) cs.
 Definition enc_optz (o : option Z) : sexp := match o with Some z => SList [SInt z] | None => SList [] end.
 
-Definition run_C10 (s : sexp) : sexp :=
+(* fd: the parameter rules to run (fdiff_m, or the version over the regenerated path conditions: Model/C10_code.v) *)
+Definition xdiff_with (fd : sig -> sig -> list brk) (idf : xsig -> xsig -> dexp -> nat) (old new : xsig) : list brk :=
+  fd (abs_sig (idf old new) old) (abs_sig (idf old new) new).
+Definition run_with (fd : sig -> sig -> list brk) (s : sexp) : sexp :=
   match s with
   | SList [SStr "xdiff"; o; n] =>
       match dec_xsig o, dec_xsig n with
       | Some xo, Some xn =>
           let o' := abs_sig (impl_ident xo xn) xo in let n' := abs_sig (impl_ident xo xn) xn in
-          let d := fdiff_m o' n' in
+          let d := fd o' n' in
           SList [SList (map enc_brk d);
-                 SList (map enc_brk (xdiff ast_ident xo xn));
+                 SList (map enc_brk (xdiff_with fd ast_ident xo xn));
                  SList [of_bool (F2 o' n'); of_bool (negb COLLISION_RULE && F4 o' n'); of_bool (negb COLLISION_RULE && F5 o' n');
                         of_bool (negb COLLISION_RULE && F6 o' n'); of_bool (negb COLLISION_RULE && F7 o' n')];
                  SList (map of_nat (f8_names xo xn));
                  of_bool (wf o' && wf n');
                  SList (map (enc_just o' n') d);
                  of_bool (known_gap_m o' n');
-                 SList (map enc_brk (xdiff text_ident xo xn))]
+                 SList (map enc_brk (xdiff_with fd text_ident xo xn))]
       | _, _ => bad_input end
   | SList [SStr "binds"; sg; cs] =>
       match dec_sig sg, dec_calls cs with
@@ -138,3 +141,4 @@ Definition run_C10 (s : sexp) : sexp :=
       match dec_dexp e with Some e' => enc_optz (dval e') | None => bad_input end
   | _ => bad_input
   end%string.
+Definition run_C10 := run_with fdiff_m.
